@@ -4,7 +4,7 @@ field family discipline (R-FAMILY.2)."""
 import ast
 
 from ..report import Finding
-from ..rules import r_clamp
+from ..rules import r_clamp, r_record
 from ..tables import clamp_tables
 from . import family_a
 
@@ -69,10 +69,12 @@ def check_objtype_frames(db, res) -> int:
 def _extra(db, res, tier, scope):
   n = r_clamp.check_clamp_last(res, scope, clamp_tables.CLAMP_LAST, "C07")
   res.floor("cutoff-last obligations", n, 30)
+  nr = r_record.check_records(res, db, ["sensor.sensor_acc"])
+  res.floor("slot records met by a sort", nr, 1)
   nf = check_objtype_frames(db, res)
   res.floor("object-type frame branches", nf, 45)
 
 
 def run(db, res, tier):
   family_a.run_family(db, res, tier, "C07", extra=_extra)
-  res.rule_text += "; R-CLAMP: every sensordata store that applies sensor_cutoff stores the clamp / min result itself; R-FAMILY.2: a sensor branch taken for a set of object types reads only frame arrays that are the frame of every type in the set (BODY: xipos/ximat, XBODY: xpos/xmat, GEOM/SITE/CAMERA: their own)"
+  res.rule_text += "; R-CLAMP: every sensordata store that applies sensor_cutoff stores the clamp / min result itself; R-RECORD: arrays that one kernel writes together per atomically allocated slot are permuted together by any later tile sort, or no consumer reads a sorted and an unsorted one at the same position; R-FAMILY.2: a sensor branch taken for a set of object types reads only frame arrays that are the frame of every type in the set (BODY: xipos/ximat, XBODY: xpos/xmat, GEOM/SITE/CAMERA: their own)"
